@@ -243,6 +243,7 @@ def gen_C04(rng, tier):
                 pr = qcase.gen_pred(rng, 2)
             p = p[:i] + [('pred', pr)] + p[i:]
         out.append(Q({'doc': d, 'cmds': [('iter', 'doc', qcase.fix_path(p), False, rng.random() < 0.15), ('drain', 0, 60, 1)]}))
+    out += existence_cases(rng, sized(tier, 200, 2000))
     return out
 
 
@@ -706,6 +707,36 @@ def oracle_C16(case, o):
     return leaks(o)
 
 
+def existence_cases(rng, n):
+    """existence filters has(path.k) / has(path[i]) (no comparison) over candidates whose member k is present with a
+    falsy value (None, 0, False, '', [], {}), present with a truthy one, or absent; evaluated untraced and traced:
+    presence is what counts, and tracing changes nothing (C17-m13: a shortcut for has(path.key) used only when nobody
+    is tracing, which took a null member for an absent one)"""
+    out = []
+    falsy = [None, None, 0, False, '', [], {}, 0.0]
+    for _ in range(n):
+        k = rng.choice(['a', 'k', 'x-y'])
+        cands = []
+        for _c in range(rng.choice([2, 3, 4])):
+            c = {'n': len(cands)}
+            r = rng.random()
+            if r < 0.55:
+                c[k] = copy.deepcopy(rng.choice(falsy))
+            elif r < 0.8:
+                c[k] = rng.choice([1, 'a', [0], {'k': None}])
+            cands.append(c if rng.random() < 0.85 else rng.choice([[None], [], None, 0]))
+        d = cands if rng.random() < 0.5 else {('m%d' % i): c for i, c in enumerate(cands)}
+        step = rng.choice([('key', k, 'item'), ('key', k, 'item'), ('idx', 0)])
+        h = ('has', [step], None, None, [], rng.choice(['has', 'has', 'tuple', 'bare']))
+        pr = rng.choice([h, h, ('not', h), ('any', [h]), ('all', [h, ('user', 'const', 1)])])
+        p = qcase.fix_path([rng.choice([('wc', False), ('lwc', False), ('gwc', True, False), ('rec', False)]), ('pred', pr)]
+                           + rng.choice([[], [('key', 'n', 'item')]]))
+        vals = rng.random() < 0.3
+        out.append(Q({'doc': d, 'cmds': [('iter', 'doc', p, vals, False), ('drain', 0, 30, 1),
+                                         ('iter', 'doc', p, vals, True), ('drain', 1, 30, 1)]}))
+    return out
+
+
 def gen_C17(rng, tier):
     out = []
     for _ in range(sized(tier, 2000, 25000)):
@@ -730,6 +761,7 @@ def gen_C17(rng, tier):
         out.append(Q({'doc': d, 'cmds': cmds}))
     # the library's own tracer: log_to(lines.append) against the model of trace._log (Builder.v log_line)
     out += [{'family': 'b', 'case': bcase.gen_bcase(rng, log=True)} for _ in range(sized(tier, 300, 4000))]
+    out += existence_cases(rng, sized(tier, 200, 2000))
     return out
 
 
